@@ -1012,9 +1012,24 @@ func (x *exec) callSiteAsserts(st *State, fr *Frame, ins ssa.Instruction, ci cal
 		}
 		x.e.sawCallSite[cs] = true
 		for i, cl := range cs.Asserts {
-			g := x.guardedGoal(env, cl.Expr)
 			detail := fmt.Sprintf("%s#%d:%s", shortKey(want), ord, clauseName(cl, i))
-			x.e.obligation(st, "callsite", detail, cl.Tag, cl.Text, cl.Pos.String(), g)
+			text := cl.Text
+			g := func() (g smt.Term) {
+				// a clause that does not type-check against the arguments of the call it is attached to (the n-th call to
+				// that callee is no longer the call the contract describes) fails; it is not an engine problem
+				defer func() {
+					if r := recover(); r != nil {
+						if se, ok := r.(SpecError); ok {
+							g = smt.False
+							text += "   [the clause cannot be evaluated at this call: " + se.Msg + "]"
+							return
+						}
+						panic(r)
+					}
+				}()
+				return x.guardedGoal(env, cl.Expr)
+			}()
+			x.e.obligation(st, "callsite", detail, cl.Tag, text, cl.Pos.String(), g)
 		}
 	}
 }
